@@ -475,11 +475,12 @@ fn mem_big<const L0: usize, const L1: usize, const L2: usize, const L3: usize>()
     let meta = meta_size();
     let f = FileNumber::for_verif(0);
     let lens = [L0, L1, L2, L3];
-    let data: [[u8; BIG]; 4] = kani::any();
+    // flat on purpose (Kani 0.68 mis-models slices of rows of a local nested array, DESIGN B22)
+    let data: [u8; 4 * BIG] = kani::any();
     let mut q = MemQueue::with_next_position(7);
     let mut n = 0;
     while n < 4 && lens[n] > 0 {
-        match q.append_record(&f, 7 + n as u64, &data[n][..lens[n]]) {
+        match q.append_record(&f, 7 + n as u64, &data[n * BIG..n * BIG + lens[n]]) {
             Ok(()) => {}
             Err(e) => {
                 std::mem::forget(e);
@@ -508,7 +509,7 @@ fn mem_big<const L0: usize, const L1: usize, const L2: usize, const L3: usize>()
                     assert!(r.payload.len() == lens[i], "C05: payload length after truncation");
                     let mut k = 0;
                     while k < lens[i] {
-                        assert!(r.payload[k] == data[i][k], "C05: payload bytes after truncation");
+                        assert!(r.payload[k] == data[i * BIG + k], "C05: payload bytes after truncation");
                         k += 1;
                     }
                 }
@@ -532,7 +533,7 @@ macro_rules! mshard {
     ($name:ident, $unwind:expr, $f:ident $(, $arg:expr)*) => {
         #[kani::proof]
         #[kani::unwind($unwind)]
-        fn $name() {
+        pub(crate) fn $name() {
             $f::<$({ $arg }),*>()
         }
     };
@@ -541,7 +542,7 @@ macro_rules! mshard_mf {
     ($name:ident, $unwind:expr, $f:ident $(, $arg:expr)*) => {
         #[kani::proof]
         #[kani::unwind($unwind)]
-        fn $name() {
+        pub(crate) fn $name() {
             $f::<$({ $arg }),*>();
             must_fail_witness();
         }
